@@ -280,12 +280,8 @@ pub fn string_to_number(s: &str) -> SN {
                     None => return SN::Unj("radix literal beyond 128 bits"),
                 };
             }
-            // exact whenever the value has at most 53 significant bits (then every correct
-            // algorithm gives the same double); otherwise the rounding direction of long
-            // literals is left unjudged
-            if acc >= (1u128 << 53) && ((acc as f64) as u128 != acc) {
-                return SN::Unj("radix literal beyond 2^53 that is not exactly representable");
-            }
+            // the mathematical value, rounded once to the nearest double (u128 -> f64 is
+            // round-to-nearest-even); literals beyond 128 bits are unjudged above
             return SN::Num(acc as f64);
         }
     }
@@ -791,6 +787,13 @@ pub fn eval(rule: &Value, data: &Value, t: &mut Trace) -> MOut {
                 m.insert("current".into(), el);
                 m.insert("accumulator".into(), acc);
                 acc = tryv!(eval(args[1], &Value::Object(m), t));
+                // A fold can nest its accumulator one level per step. Values deeper than JSON
+                // text can be (127 containers) are outside what the statements speak about
+                // (C01: "documents the text interfaces can deliver"); the implementation returns
+                // an error there, which C01 demands instead of a stack overflow.
+                if nested_deeper_than(&acc, 127) {
+                    return MOut::Unj("reduce accumulator nested deeper than JSON text can be");
+                }
             }
             MOut::Val(acc)
         }
@@ -1153,6 +1156,29 @@ pub fn apply_eager(op: &str, v: &[Value], t: &mut Trace) -> MOut {
         }
         _ => MOut::Unj("unknown operator in model"),
     }
+}
+
+/// Iterative nesting-depth test (never recurses into the value).
+pub fn nested_deeper_than(v: &Value, limit: usize) -> bool {
+    let mut pending: Vec<(&Value, usize)> = vec![(v, 0)];
+    while let Some((cur, d)) = pending.pop() {
+        match cur {
+            Value::Array(a) => {
+                if d + 1 > limit {
+                    return true;
+                }
+                pending.extend(a.iter().map(|c| (c, d + 1)));
+            }
+            Value::Object(m) => {
+                if d + 1 > limit {
+                    return true;
+                }
+                pending.extend(m.values().map(|c| (c, d + 1)));
+            }
+            _ => {}
+        }
+    }
+    false
 }
 
 /// Convenience: evaluate with a fresh trace.
